@@ -1,11 +1,36 @@
 package loader
 
-import "github.com/jsightapi/jsight-schema-core/notations/jschema/ischema"
+import (
+	"sort"
 
+	"github.com/jsightapi/jsight-schema-core/notations/jschema/ischema"
+)
+
+// AddUnnamedTypes makes the types known to the registered types (the unnamed
+// types created for "or" rule-sets in the first place) known to the root schema.
+//
+// The walk is done in name order over a snapshot of the names, and a type the
+// root schema already has is never replaced: when every type is registered on
+// every type, the nested tables hold the same named types with other root
+// files, and which of them ended up in the root table used to depend on map
+// iteration order (so did the file and the source line quoted in error messages).
 func AddUnnamedTypes(rootSchema *ischema.ISchema) {
-	for _, typ := range rootSchema.TypesList() {
-		for unnamed, unnamedTyp := range typ.Schema.TypesList() {
-			rootSchema.AddType(unnamed, unnamedTyp)
+	for _, name := range sortedTypeNames(rootSchema.TypesList()) {
+		typ := rootSchema.TypesList()[name]
+		for _, inner := range sortedTypeNames(typ.Schema.TypesList()) {
+			if _, ok := rootSchema.TypesList()[inner]; ok {
+				continue
+			}
+			rootSchema.AddType(inner, typ.Schema.TypesList()[inner])
 		}
 	}
+}
+
+func sortedTypeNames(m map[string]ischema.Type) []string {
+	names := make([]string, 0, len(m))
+	for name := range m {
+		names = append(names, name)
+	}
+	sort.Strings(names)
+	return names
 }
